@@ -226,6 +226,14 @@ func (w *world) runScript(sc script) {
 	if sc.Sync {
 		// the tail after the script is a stabilised network with silent faulty members: the run is judged like every other C06 run
 		w.sc.GST = time.Millisecond
+		if min := w.t0.Add(2 * time.Millisecond); w.now.Before(min) {
+			w.now = min // the tail runs strictly after the (nominal) stabilisation time
+		}
+		for _, id := range w.honest {
+			if w.hosts[id].clk.Before(w.now) {
+				w.hosts[id].clk = w.now
+			}
+		}
 		w.gstPassed = true
 		for _, id := range w.honest {
 			w.gstRounds[id] = w.parts[id].Progress().Round
